@@ -151,6 +151,33 @@ Proof.
   - destruct (_ && _); discriminate.
 Qed.
 
+(* the seam between two contours: an emitted outline has had the step from the last
+   emitted point of a contour to the first emitted point of the next one checked *)
+Lemma simple_glyph_emit_checks : forall p cs o, cs <> [] -> simple_glyph p cs = Emit o -> outline_checksb cs = true.
+Proof.
+  intros p cs o Hne H. rewrite simple_glyph_eq in H by assumption.
+  destruct (outline_checksb cs); [reflexivity|]. destruct (_ && _); discriminate.
+Qed.
+
+Lemma seam_step_checked : forall p (before : list contour) c1 c2 after o q2 r2,
+  simple_glyph p (before ++ c1 :: c2 :: after) = Emit o ->
+  map round_pt (emit_order c2) = q2 :: r2 ->
+  let prev := glyf_points (before ++ [c1]) in
+  fits_i16 (fst q2 - List.last (map fst prev) 0) = true /\
+  fits_i16 (snd q2 - List.last (map snd prev) 0) = true.
+Proof.
+  intros p before c1 c2 after o q2 r2 H E prev.
+  assert (before ++ c1 :: c2 :: after <> []) as Hne by (destruct before; discriminate).
+  pose proof (simple_glyph_emit_checks _ _ _ Hne H) as K.
+  destruct (outline_checks_split _ K) as [_ [Dx [Dy _]]].
+  assert (glyf_points (before ++ c1 :: c2 :: after) = prev ++ q2 :: (r2 ++ glyf_points after)) as G.
+  { unfold prev, glyf_points.
+    replace (before ++ c1 :: c2 :: after) with ((before ++ [c1]) ++ c2 :: after) by (rewrite <- app_assoc; reflexivity).
+    rewrite flat_map_app. cbn [flat_map]. rewrite E. reflexivity. }
+  rewrite G, map_app in Dx, Dy. cbn [map] in Dx, Dy.
+  split; [exact (diffs_fitb_seam _ _ _ _ Dx)|exact (diffs_fitb_seam _ _ _ _ Dy)].
+Qed.
+
 (* an outline that glyf cannot hold is refused by both profiles *)
 Lemma simple_glyph_unfit_rejected : forall p cs, cs <> [] -> outline_checksb cs = false -> emitted (simple_glyph p cs) = false.
 Proof.
